@@ -1059,6 +1059,22 @@ def _identity_comprehensions(fnode):
                     and isinstance(n.generators[0].target, ast.Name) and n.elt.id == n.generators[0].target.id:
                 return ast.copy_location(ast.Call(func=ast.Name(id="list", ctx=ast.Load()), args=[n.generators[0].iter], keywords=[]), n)
             return n
+
+        def visit_Assign(self, st):
+            self.generic_visit(st)
+            v = st.value
+            if isinstance(v, (ast.GeneratorExp, ast.ListComp)) and len(st.targets) == 1 and isinstance(st.targets[0], (ast.Tuple, ast.List)) \
+                    and len(v.generators) == 1 and not v.generators[0].ifs and isinstance(v.generators[0].iter, (ast.Tuple, ast.List)) \
+                    and len(v.generators[0].iter.elts) == len(st.targets[0].elts) <= MAX_UNROLL \
+                    and not any(isinstance(e, ast.Starred) for e in v.generators[0].iter.elts):
+                elts = []
+                for item in v.generators[0].iter.elts:
+                    m = {}
+                    if not _bind_target(v.generators[0].target, item, m):
+                        return st
+                    elts.append(_Subst(m).visit(clone(v.elt)))
+                st.value = ast.copy_location(ast.Tuple(elts=elts, ctx=ast.Load()), v)
+            return st
     R().visit(fnode)
 
 
